@@ -339,6 +339,10 @@ def apply_move(m, vals, cursor, ipp):
         new = ipp + v
     if new < 0:
         raise Undefined("negative cursor")
+    if ref != "begins" and new < ipp:
+        # a relative move that leaves the packet through its front (bytes before the packet's own start, possibly before the
+        # start offset of the whole parse): what parse-then-serialize means there is fixed by no property
+        raise Undefined("cursor before the start of the packet")
     return new
 
 
